@@ -274,3 +274,48 @@ def gen_dispatch(rng):
     if c_style:
         c = c.replace(b"*/", b"* /") + rng.choice([b" */", b"*/"])
     return c
+
+
+import re
+_TOK = re.compile(rb"//[^\n]*|/\*.*?\*/|[A-Za-z_][A-Za-z_0-9]*|[0-9]+|\S")
+
+
+def tokenize_lines(lines):
+    """the simplecpp tokens of the simple generated lines: (line, is_comment, text)"""
+    out = []
+    for n, l in enumerate(lines, 1):
+        for m in _TOK.finditer(l):
+            t = m.group(0)
+            out.append([n, t.startswith(b"//") or t.startswith(b"/*"), t])
+    return out
+
+
+I_COMMENTS = [b"// cppcheck-suppress a", b"// cppcheck-suppress b symbolName=s", b"// cppcheck-suppress[a,b]", b"/* cppcheck-suppress c */",
+              b"// cppcheck-suppress-begin a", b"// cppcheck-suppress-end a", b"// cppcheck-suppress-begin [a,b]", b"// cppcheck-suppress-end [a,b]",
+              b"// cppcheck-suppress-file f", b"// cppcheck-suppress-macro m", b"// plain comment", b"// cppcheck-suppress", b"// cppcheck-suppress-foo x",
+              b"// cppcheck-suppress a bogus", b"/* cppcheck-suppress-end b */", b"// cppcheck-suppress []"]
+I_CODE = [b"    x;", b"    y = 1;", b"{", b"}", b"    if (x) {", b"#define M(q) q", b"    z"]
+
+
+def gen_inline_source(rng):
+    lines = []
+    if rng.random() < 0.3:
+        for _ in range(rng.randint(1, 2)):
+            lines.append(rng.choice([b"// cppcheck-suppress-file f", b"// cppcheck-suppress-file [f,g]", b"// note", b"", b"// cppcheck-suppress a"]))
+    if rng.random() < 0.8:
+        lines.append(b"void f(void) {")
+    for _ in range(rng.randint(1, 8)):
+        k = rng.random()
+        if k < 0.35:
+            lines.append(rng.choice(I_CODE))
+        elif k < 0.7:
+            lines.append(b"    " + rng.choice(I_COMMENTS))
+        elif k < 0.85:
+            lines.append(rng.choice(I_CODE[:5]) + b" " + rng.choice(I_COMMENTS))
+        elif k < 0.92:
+            lines.append(b"")
+        else:
+            lines.append(b"    /* cppcheck-suppress a */ " + rng.choice(I_COMMENTS))
+    if rng.random() < 0.7:
+        lines.append(b"}")
+    return lines
